@@ -32,10 +32,10 @@ type Gate struct {
 }
 
 type Ctl struct {
-	mu      sync.Mutex
-	parked  []*Gate
-	seq     int
-	roleOf  map[uint64]string
+	mu     sync.Mutex
+	parked []*Gate
+	seq    int
+	roleOf map[uint64]string
 	// RoleFor assigns a role to a goroutine the first time it reaches a gate (given point and obj).
 	RoleFor func(gid uint64, point string, obj any) string
 	// Passive: hooks only record (no gating)
